@@ -41,7 +41,7 @@ Fixpoint strip_prefix (p s : str) : option str :=
   | _ :: _, [] => None
   end.
 
-Definition is_prefix (p s : str) : Prop := exists r, s = p ++ r.
+Definition is_prefix {A} (p s : list A) : Prop := exists r, s = p ++ r.
 
 Definition is_prefixb (p s : str) : bool :=
   match strip_prefix p s with Some _ => true | None => false end.
@@ -74,30 +74,30 @@ Proof.
   - apply strip_prefix_None in E. split; [discriminate | tauto].
 Qed.
 
-Lemma is_prefix_nil s : is_prefix [] s.
+Lemma is_prefix_nil {A} (s : list A) : is_prefix [] s.
 Proof. exists s; auto. Qed.
 
-Lemma is_prefix_refl s : is_prefix s s.
+Lemma is_prefix_refl {A} (s : list A) : is_prefix s s.
 Proof. exists []; rewrite app_nil_r; auto. Qed.
 
-Lemma is_prefix_of_nil p : is_prefix p [] -> p = [].
+Lemma is_prefix_of_nil {A} (p : list A) : is_prefix p [] -> p = [].
 Proof. intros [r H]. symmetry in H. apply app_eq_nil in H. tauto. Qed.
 
-Lemma is_prefix_length p s : is_prefix p s -> length p <= length s.
+Lemma is_prefix_length {A} (p s : list A) : is_prefix p s -> length p <= length s.
 Proof. intros [r ->]. rewrite app_length. lia. Qed.
 
-Lemma is_prefix_app_inv a p s : is_prefix (a ++ p) (a ++ s) <-> is_prefix p s.
+Lemma is_prefix_app_inv {A} (a p s : list A) : is_prefix (a ++ p) (a ++ s) <-> is_prefix p s.
 Proof.
   split; intros [r H].
   - rewrite <- app_assoc in H. apply app_inv_head in H. exists r; auto.
   - exists r. rewrite <- app_assoc. f_equal; auto.
 Qed.
 
-Lemma is_prefix_cons_inv x p y s : is_prefix (x :: p) (y :: s) -> x = y /\ is_prefix p s.
+Lemma is_prefix_cons_inv {A} (x : A) p y s : is_prefix (x :: p) (y :: s) -> x = y /\ is_prefix p s.
 Proof. intros [r H]. simpl in H. injection H as -> ->. split; auto. exists r; auto. Qed.
 
 (** Two prefixes of one string that have the same length are equal. *)
-Lemma is_prefix_same_length a b s :
+Lemma is_prefix_same_length {A} (a b s : list A) :
   is_prefix a s -> is_prefix b s -> length a = length b -> a = b.
 Proof.
   revert b s; induction a as [|x a IH]; intros [|y b] s Ha Hb L; simpl in L; try lia; auto.
@@ -142,7 +142,7 @@ Qed.
     [best ss s r]: [r] is a prefix of [s] that is registered in [ss] (or the
     empty string when nothing matches) and no registered prefix of [s] is
     longer.  [longest_prefix] is the brute-force scan computing it. *)
-Definition best (ss : list str) (s r : str) : Prop :=
+Definition best {A} (ss : list (list A)) (s r : list A) : Prop :=
   is_prefix r s /\ (r = [] \/ In r ss) /\
   forall w, In w ss -> is_prefix w s -> length w <= length r.
 
@@ -152,7 +152,7 @@ Definition pick (s : str) (cur w : str) : str :=
 Definition longest_prefix (ss : list str) (s : str) : str :=
   fold_left (pick s) ss [].
 
-Lemma best_unique ss s r1 r2 : best ss s r1 -> best ss s r2 -> r1 = r2.
+Lemma best_unique {A} ss (s r1 r2 : list A) : best ss s r1 -> best ss s r2 -> r1 = r2.
 Proof.
   intros (P1 & M1 & L1) (P2 & M2 & L2).
   apply (is_prefix_same_length _ _ s); auto.
@@ -188,7 +188,7 @@ Proof.
   split; [apply is_prefix_nil|]. split; auto. intros w [].
 Qed.
 
-Lemma best_ext ss ss' s r :
+Lemma best_ext {A} ss ss' (s r : list A) :
   (forall w, w <> [] -> (In w ss <-> In w ss')) -> best ss s r -> best ss' s r.
 Proof.
   intros E (P & M & L). split; auto. split.
